@@ -80,6 +80,11 @@ type Service struct {
 	handlers         []FailureHandler
 	runningPipelines *csync.Map[string, *runnablePipeline]
 
+	// publishMu serializes the writers of runningPipelines (the publication in
+	// runPipeline and the compare-and-delete of a departing run), see
+	// deleteRunningPipelineIfCurrent. Never held across I/O.
+	publishMu sync.Mutex
+
 	// terminalErrors holds the terminal error of a pipeline after it has stopped
 	// and been removed from runningPipelines, so WaitPipeline can still report it
 	// to a caller that races the pipeline's own cleanup goroutine. Written before
@@ -1732,8 +1737,15 @@ func (s *Service) runPipeline(rp *runnablePipeline) error {
 		// delete leaves no window where neither is observable).
 		s.terminalErrors.Set(rp.pipeline.ID, err)
 
-		// confirmed that all nodes stopped, we can now remove the pipeline from the running pipelines
-		s.runningPipelines.Delete(rp.pipeline.ID)
+		// confirmed that all nodes stopped, we can now remove the pipeline from
+		// the running pipelines - but only if the entry is still THIS run. The
+		// status written above (e.g. UserStopped) already admits a concurrent
+		// Start, which may have published a newer run by now; a delete by key
+		// would orphan that live run: Stop and StopAndWait report "not
+		// running", WaitPipeline returns at once and a later recovery of that
+		// run never restarts it (StartWithBackoff takes the missing entry for
+		// an external restart). Same as pkg/lifecycle (#2806).
+		s.deleteRunningPipelineIfCurrent(rp.pipeline.ID, rp)
 
 		s.notify(rp.pipeline.ID, err)
 		return err
@@ -1777,7 +1789,9 @@ func (s *Service) runPipeline(rp *runnablePipeline) error {
 	//   - that cleanup goroutine blocks on startupDone (closed below), so it
 	//     can never Delete before this Set, which would strand a live run
 	//     outside the map.
+	s.publishMu.Lock()
 	s.runningPipelines.Set(rp.pipeline.ID, rp)
+	s.publishMu.Unlock()
 
 	// It's now safe to make the potentially slow UpdateStatus call and then
 	// release the cleanup goroutine to make its own. close(startupDone)
@@ -1786,6 +1800,18 @@ func (s *Service) runPipeline(rp *runnablePipeline) error {
 	err := s.pipelines.UpdateStatus(ctx, rp.pipeline.ID, pipeline.StatusRunning, "")
 	close(startupDone)
 	return err
+}
+
+// deleteRunningPipelineIfCurrent removes id's entry from runningPipelines only
+// if it still holds exactly rp (compare-and-delete, serialized against the
+// publication in runPipeline by publishMu).
+func (s *Service) deleteRunningPipelineIfCurrent(id string, rp *runnablePipeline) {
+	s.publishMu.Lock()
+	defer s.publishMu.Unlock()
+
+	if current, ok := s.runningPipelines.Get(id); ok && current == rp {
+		s.runningPipelines.Delete(id)
+	}
 }
 
 // recoverPipeline attempts to recover a pipeline that stopped with a transient
